@@ -124,6 +124,7 @@ class Lemma:
         self.requires, self.ensures, self.induct = requires, ensures, induct
         self.props = list(props)
         self.options = dict(options or {})
+        self.assumed, self.reason, self.lean = False, None, None
 
 
 class Registry:
@@ -133,6 +134,7 @@ class Registry:
         self.contracts = {}
         self.invariants = {}
         self.lemmas = {}
+        self.axioms = {}
         self.rec_construct = {}
         self.allowed_roots = ROOTS
         self.resolvers = {}
@@ -185,6 +187,17 @@ def lemma(sig, requires=None, induct=None, props=('*',), options=None):
     def deco(fn):
         REG.lemmas[fn.__name__] = Lemma(fn, fn.__name__, sig, requires, fn, induct, props, options=options)
         fn._lemma = REG.lemmas[fn.__name__]
+        return fn
+    return deco
+
+
+def axiom(sig, requires=None, reason="", lean=None):
+    """a lemma that is ASSUMED (never discharged by SMT): listed in the evidence; `lean` names a Lean file proving it"""
+    def deco(fn):
+        l = Lemma(fn, fn.__name__, sig, requires, fn, None, ())
+        l.assumed, l.reason, l.lean = True, reason, lean
+        REG.axioms[fn.__name__] = l
+        fn._lemma = l
         return fn
     return deco
 
